@@ -12,7 +12,9 @@ RULE = ("seeded configurations of synthetic modules registered in sys.modules: 1
         "expectation computed from the configuration; (b) a tree mixing instances of the findable classes with built-ins is saved "
         "and read back: every node and Metadata comes back as an instance of exactly its class, Custom attribute nodes are stored "
         "as custom_* groups, returned to the reader hook under their attribute names and never appear as tree children; (c) with a "
-        "class removed before reading, read raises; non-trivial = a class nested >= 2 modules deep; distinct by recipe hash")
+        "class removed before reading, read raises; sub-modules may ALSO be registered in sys.modules under their dotted name (a hooked "
+        "sub-module of an un-hooked package is a starting point of its own); an attribute node of a Custom object may also belong "
+        "to a tree of its own; non-trivial = a class nested >= 2 modules deep; distinct by recipe hash")
 BASES = ["Node", "Array", "PointList", "PointListArray", "Custom", "Metadata"]
 BUILTIN_IDS = {"Array": 0, "Custom": 1, "Metadata": 2, "Node": 3, "PointList": 4, "PointListArray": 5, "Root": 6}
 
